@@ -157,6 +157,16 @@ def _shape_to_axes(shape):
             if s.dom is not sp.true:
                 dom = s.dom
         return axes, dom
+    if isinstance(shape, (tuple, list)) and all((isinstance(s, S) and s.e in sym.Axis.REG) or isinstance(s, LenS) for s in shape):
+        # lengths unpacked from other arrays' shapes, e.g. (*z.shape, *table.shape): each full-axis length names its axis
+        axes, dom = (), sp.true
+        for s in shape:
+            if isinstance(s, LenS):
+                axes += s.axes
+                dom = s.dom if s.dom is not sp.true else dom
+            else:
+                axes += (sym.Axis.REG[s.e],)
+        return axes, dom
     raise Unsupported("array creation with shape %r" % (shape,))
 
 
@@ -186,6 +196,12 @@ def m_ones(shape, *a, **k):
 def m_sum(x, axis=None, **k):
     if isinstance(x, S):
         return x
+    if isinstance(x, EA):
+        # explicit array: numpy's own reduction over the object elements (S supports +)
+        if x.size == 0:
+            raise Unsupported("np.sum of an empty explicit array")
+        r = np.sum(np.frompyfunc(sym._lift_s, 1, 1)(x.a), axis=axis)
+        return EA(r) if isinstance(r, np.ndarray) else sym._lift_s(r)
     if not isinstance(x, A):
         raise Unsupported("np.sum of %r" % type(x))
     return sym.asum(x, axis)
@@ -303,6 +319,10 @@ def build_models(interp):
     reg(np.isfinite, m_isfinite)
     reg(np.single, _ew(lambda e: e))
     reg(np.float32, _ew(lambda e: e))
+    # integer casts truncate toward zero
+    _trunc = _ew(lambda e: e if e.is_integer else (sp.floor(e) if e.is_nonnegative else ite(sp.Ge(e, 0), sp.floor(e), sp.ceiling(e))))
+    reg(np.int32, _trunc)
+    reg(np.int64, _trunc)
     reg(np.float64, _ew(lambda e: e))
     reg(float, _ew(lambda e: e))
 
@@ -451,6 +471,27 @@ def build_models(interp):
             return EA(out)
         raise Unsupported("np.insert on %s" % type(arr).__name__)
 
+    def m_outer(a, b, out=None):
+        """outer product of two 1-D generic-element arrays over different axes: element a_i * b_j on axes (i, j)"""
+        if isinstance(a, A) and isinstance(b, A) and a.ndim == 1 and b.ndim == 1 and a.axes[0] is not b.axes[0] and b.dom is sp.true:
+            return a[:, None] * b[None, :]
+        raise Unsupported("np.outer of %s, %s" % (type(a).__name__, type(b).__name__))
+
+    reg(np.outer, m_outer)
+
+    def m_argmax(x, axis=None, **k):
+        """argmax of an explicit array whose elements are all numbers (first maximum, numpy's rule)"""
+        if isinstance(x, EA) and x.ndim == 1 and axis in (None, 0, -1):
+            vals = [sym._lift_s(q).e for q in x.a]
+            if all(v.is_number for v in vals):
+                best = 0
+                for i, v in enumerate(vals):
+                    if v > vals[best]:
+                        best = i
+                return best
+        raise Unsupported("argmax over symbolic values")
+
+    reg(np.argmax, m_argmax)
     reg(np.cumsum, m_cumsum)
     reg(np.insert, m_insert)
     reg(np.where, m_where)
